@@ -213,6 +213,45 @@ pub fn frames_body(frames: Vec<Vec<u8>>) -> BoxedBody {
 
 type Io = BufReader<BufWriter<Compat<tokio::io::DuplexStream>>>;
 
+/// Copies bytes between an in-process pipe and a TCP connection to `addr` until either side ends, then drops both.
+pub async fn bridge(pipe: tokio::io::DuplexStream, addr: std::net::SocketAddr) {
+	use tokio::io::{AsyncReadExt, AsyncWriteExt};
+	let Ok(tcp) = tokio::net::TcpStream::connect(addr).await else { return };
+	let _ = tcp.set_nodelay(true);
+	let (mut pr, mut pw) = tokio::io::split(pipe);
+	let (mut tr, mut tw) = tcp.into_split();
+	let up = async {
+		let mut buf = vec![0u8; 16384];
+		loop {
+			match pr.read(&mut buf).await {
+				Ok(n) if n > 0 => {
+					if tw.write_all(&buf[..n]).await.is_err() {
+						break;
+					}
+				}
+				_ => break,
+			}
+		}
+	};
+	let down = async {
+		let mut buf = vec![0u8; 16384];
+		loop {
+			match tr.read(&mut buf).await {
+				Ok(n) if n > 0 => {
+					if pw.write_all(&buf[..n]).await.is_err() {
+						break;
+					}
+				}
+				_ => break,
+			}
+		}
+	};
+	tokio::select! {
+		_ = up => {}
+		_ = down => {}
+	}
+}
+
 /// A raw WebSocket peer talking to one in-process connection with its own stop channel.
 pub struct WsPeer {
 	pub tx: soketto::Sender<Io>,
@@ -245,6 +284,25 @@ impl WsPeer {
 		let conn = tokio::spawn(async move {
 			let _ = serve_with_graceful_shutdown(server_io, svc, stopped).await;
 		});
+		Self::handshake(client_io, stop, handle, conn, headers).await
+	}
+
+	/// the same peer, talking to a real `Server::start` listener: the in-process pipe is bridged to a TCP connection
+	/// (when the peer's end of the pipe goes away the TCP connection is closed, and vice versa)
+	pub async fn connect_tcp(addr: std::net::SocketAddr, headers: &[(&str, &str)]) -> Result<WsPeer, String> {
+		let (client_io, server_io) = tokio::io::duplex(1 << 22);
+		let conn = tokio::spawn(bridge(server_io, addr));
+		let (stop, handle) = jsonrpsee_server::stop_channel(); // unused: the listener has one stop channel of its own
+		Self::handshake(client_io, stop, handle, conn, headers).await
+	}
+
+	async fn handshake(
+		client_io: tokio::io::DuplexStream,
+		stop: StopHandle,
+		handle: ServerHandle,
+		conn: tokio::task::JoinHandle<()>,
+		headers: &[(&str, &str)],
+	) -> Result<WsPeer, String> {
 		let mut client = soketto::handshake::Client::new(BufReader::new(BufWriter::new(client_io.compat())), "localhost", "/");
 		let hs: Vec<soketto::handshake::client::Header> =
 			headers.iter().map(|(k, v)| soketto::handshake::client::Header { name: k, value: v.as_bytes() }).collect();
